@@ -79,6 +79,8 @@ PRELUDES = {'plain': [], 'sigstate': ['sighandler 10', 'sighandler 13', 'sighand
             # the caller has blocked SIGPIPE / SIGXFSZ / SIGTTOU / SIGUSR1 and one instance of each is PENDING: it must still be pending, and
             # undelivered, afterwards (the digest holds the pending set; a delivery would kill the process)
             'blocked_signals_pending': ['sigmask 13', 'sigmask 25', 'sigmask 22', 'sigmask 10', 'raise 13', 'raise 25', 'raise 22', 'raise 10'],
+            # the caller's stdout holds text it has not flushed yet (fully buffered), its stderr is wide-oriented
+            'callers_stdio_in_use': ['stdiopending 1'],
             # environment values with line feeds / carriage returns in the variables the data sources read
             'env_with_line_feeds': ['setenv %s %s' % (H.hx(b'LOGNAME'), H.hx(b'alice\nroot')), 'setenv %s %s' % (H.hx(b'SUDO_USER'), H.hx(b'bob\r\nx')), 'setenv %s %s' % (H.hx(b'A'), H.hx(b'l1\nl2'))]}
 
@@ -162,7 +164,7 @@ def run(ck):
                     bad.append((what, d))
             # process attributes must survive even the very FIRST call (library statics and heap may legitimately settle there)
             if 'pre' in ds:
-                d = digest_eq({k: v for k, v in ds['pre'].items() if k in ('fds', 'env', 'cwd', 'umask', 'sigmask', 'sigpending', 'sigact', 'misc')}, {k: v for k, v in ds['end'].items() if k in ('fds', 'env', 'cwd', 'umask', 'sigmask', 'sigpending', 'sigact', 'misc')})
+                d = digest_eq({k: v for k, v in ds['pre'].items() if k in ('fds', 'env', 'cwd', 'umask', 'sigmask', 'sigpending', 'sigact', 'misc', 'stdio', 'stdio_pending')}, {k: v for k, v in ds['end'].items() if k in ('fds', 'env', 'cwd', 'umask', 'sigmask', 'sigpending', 'sigact', 'misc', 'stdio', 'stdio_pending')})
                 if d:
                     bad.append(('process_attributes_changed_since_before_first_call', d))
             if heap:
